@@ -76,12 +76,50 @@ func newMailboxPairOn(r *relay.Relay, seed uint64) (*mailboxPair, error) {
 }
 
 func (p *mailboxPair) Close() {
-	var wg sync.WaitGroup
-	wg.Add(2)
-	go func() { defer wg.Done(); _ = p.C.Close() }()
-	go func() { defer wg.Done(); _ = p.S.Close() }()
-	wg.Wait()
+	p.CloseWithin(0)
+}
+
+// CloseWithin closes both ends; with d > 0 it gives up after d (the Close
+// calls are left running) and reports which end did not return. The contexts
+// are cancelled in any case.
+func (p *mailboxPair) CloseWithin(d time.Duration) (hung []string) {
+	done := [2]chan struct{}{make(chan struct{}), make(chan struct{})}
+	go func() { _ = p.C.Close(); close(done[0]) }()
+	go func() { _ = p.S.Close(); close(done[1]) }()
+	var to <-chan time.Time
+	if d > 0 {
+		to = time.After(d)
+	}
+	for i, name := range []string{"client", "server"} {
+		select {
+		case <-done[i]:
+		case <-to:
+			to = time.After(0)
+			hung = append(hung, name)
+		}
+	}
 	p.cancel()
+	return hung
+}
+
+// closeWithin calls the closers concurrently and reports the names of those
+// that did not return within d.
+func closeWithin(d time.Duration, names []string, closers ...func() error) (hung []string) {
+	done := make([]chan struct{}, len(closers))
+	for i, c := range closers {
+		done[i] = make(chan struct{})
+		go func(c func() error, ch chan struct{}) { _ = c(); close(ch) }(c, done[i])
+	}
+	to := time.After(d)
+	for i := range closers {
+		select {
+		case <-done[i]:
+		case <-to:
+			to = time.After(0)
+			hung = append(hung, names[i])
+		}
+	}
+	return hung
 }
 
 var _ net.Conn = (*mailbox.ClientConn)(nil)
